@@ -2,6 +2,7 @@ package c05frame
 
 import (
 	"fmt"
+	"runtime"
 	"strconv"
 	"strings"
 
@@ -36,7 +37,7 @@ func Exec(w []string) (ans string, mine bool) {
 		return "", false
 	}
 	switch w[0] {
-	case "frame", "rows", "hdr", "body":
+	case "frame", "rows", "hdr", "body", "falloc":
 	default:
 		return "", false
 	}
@@ -74,6 +75,30 @@ func Exec(w []string) (ans string, mine bool) {
 			return crash, true
 		}
 		return ans, true
+	case "falloc":
+		// bytes allocated while parsing one frame (runtime.MemStats.TotalAlloc delta), as a coarse class
+		if len(w) != 5 {
+			return "bad-op", true
+		}
+		proto, flags, op, body := atoi(w[1]), atoi(w[2]), atoi(w[3]), hx(w[4])
+		var m0, m1 runtime.MemStats
+		runtime.GC()
+		runtime.ReadMemStats(&m0)
+		crash := c05util.Guard(func() {
+			gocql.VerifC05ParseFrame(byte(proto), byte(proto)|0x80, byte(flags), byte(op), body)
+		})
+		runtime.ReadMemStats(&m1)
+		if crash != "" {
+			return crash, true
+		}
+		d := m1.TotalAlloc - m0.TotalAlloc
+		switch {
+		case d < 4<<20:
+			return "alloc:small", true
+		case d >= 48<<20:
+			return "alloc:big", true
+		}
+		return "alloc:mid", true
 	case "rows":
 		if len(w) != 4 {
 			return "bad-op", true
@@ -394,6 +419,7 @@ func Gen(r *vh.Rng, tier string, emit emitFn) {
 		}
 	}
 	g.headers(mult)
+	g.allocs(mult)
 	Skipped += g.skipped
 }
 
@@ -610,5 +636,53 @@ func (g *gen) headers(mult int) {
 	for i := 0; i < 20*mult; i++ {
 		n := r.Intn(300)
 		body(1+r.Intn(5), n+r.Intn(3)-1, r.Intn(2)*r.Intn(2), r.Bytes(n), "rand")
+	}
+}
+
+// allocs: allocation class of frame parsing (KF-C05-7, KF-C05-8): well-formed frames are small; a
+// partition-key count of 2^24 and 80 nested maximal tuple / UDT descriptions are big.
+func (g *gen) allocs(mult int) {
+	r := g.r
+	fa := func(proto, flags, op int, body []byte, why string) {
+		line := fmt.Sprintf("falloc %d %d %d %s", proto, flags, op, vh.Hex(body))
+		a, _ := Exec(strings.Fields(line))
+		g.emit(line, a, "falloc/"+why+"/"+a, true)
+	}
+	for i := 0; i < 20*mult; i++ {
+		proto := 1 + r.Intn(5)
+		flags, op, w := genFrame(r, proto)
+		if hugePk(proto, flags, op, w.b) {
+			continue
+		}
+		fa(proto, flags, op, w.b, "wf")
+	}
+	w := func(f func(w *fb)) []byte { x := &fb{}; f(x); return x.b }
+	fa(4, 0, 0x08, w(func(x *fb) {
+		x.int4(4, "")
+		x.shortBytes(nil)
+		x.int4(4, "")
+		x.int4(0, "")
+		x.int4(1<<24, "")
+	}), "pk")
+	for _, id := range []int{0x31, 0x30} {
+		fa(4, 0, 0x08, w(func(x *fb) {
+			x.int4(2, "")
+			x.int4(1, "")
+			x.int4(1, "")
+			x.str("k")
+			x.str("t")
+			x.str("c")
+			for d := 0; d < 80; d++ {
+				x.short(id, "")
+				if id == 0x30 {
+					x.str("")
+					x.str("")
+				}
+				x.short(0xFFFF, "")
+				if id == 0x30 {
+					x.str("")
+				}
+			}
+		}), "nest")
 	}
 }
